@@ -708,6 +708,17 @@ fn main() {
                     });
                 }
             }
+            // progress (C02): the block the node holds for an unvoted slot is voted on in the very step its parent
+            // becomes acceptable (ready parent for a window start; own notarized block of the previous slot otherwise)
+            if !panicked && sane_input {
+                let mut last: std::collections::BTreeMap<u64, (u64, u64, u64)> = std::collections::BTreeMap::new();
+                for (bs, h, ps, ph) in &h_blocks { last.insert(*bs, (*h, *ps, *ph)); }
+                for (s, (h, ps, ph)) in last {
+                    if s <= max_final || h_votes.iter().any(|x| x.initial() && x.slot() == s) { continue; }
+                    let votable = if s % W == 0 { h_prs.contains(&(s, ps, ph)) } else { ps + 1 == s && ((ps == 0 && ph == 0) || h_votes.contains(&OV::N(ps, ph))) };
+                    rec.oracle(!votable, "c02-votable-block-not-voted", || format!("{op}: the node holds block ({s},{h}) with parent ({ps},{ph}), the parent is acceptable (parent-ready {:?}, own votes {:?}) and the node has not voted in slot {s}: it will time out on a block it could notarize", h_prs.iter().filter(|p| p.0 == s).collect::<Vec<_>>(), h_votes.iter().filter(|v| v.slot() + 1 >= s && v.slot() <= s).collect::<Vec<_>>()));
+                }
+            }
             if panicked {
                 break;
             }
